@@ -5,7 +5,10 @@
    `spec_edge names spec` = the PUBLISHED graph of Spec.v (hand-written) plus the same abandon rule.
    `step_ok p s o` (Model.v): the states announced by the step continue the thread's persisted state along
    edges, the new persisted state is one of them (or unchanged), and a terminal state announces nothing.
-   `disciplined`: no message is accepted on a thread while one of its action events is still open. *)
+   `disciplined` (the guard of the partial theorems): no message is accepted on a thread while one of its action
+   events is still open, and no injected fault makes the listener abandon a thread after a terminal state was
+   announced.  Operations carry faults (failing state read / write, failing network action at any position):
+   the theorems quantify over them. *)
 From Coq Require Import List NArith String Bool.
 Import ListNotations.
 From VF Require Import gen.Gen_C09 C09.Model C09.Spec C09.Proofs.
@@ -65,17 +68,17 @@ Proof. exact reject_preserves_gen. Qed.
 Print Assumptions reject_preserves.
 
 (* a message whose target state is not allowed from the thread's current persisted state IS rejected *)
-Theorem disallowed_rejected : forall p s outbound m v3 flag t tape,
+Theorem disallowed_rejected : forall p s outbound m v3 flag t f tape,
   match target p m v3 outbound with
   | Some x => can p (cur p s t) x = false
   | None => True
-  end -> step p s (Msg outbound m v3 flag t tape) = (s, (RReject, [])).
+  end -> step p s (Msg outbound m v3 flag t f tape) = (s, (RReject, [])).
 Proof. exact disallowed_rejected_gen. Qed.
 Print Assumptions disallowed_rejected.
 
 (* and conversely: whatever is not rejected was allowed at the time it arrived *)
-Theorem accepted_allowed : forall p s outbound m v3 flag t tape,
-  fst (snd (step p s (Msg outbound m v3 flag t tape))) <> RReject ->
+Theorem accepted_allowed : forall p s outbound m v3 flag t f tape,
+  fst (snd (step p s (Msg outbound m v3 flag t f tape))) <> RReject ->
   exists x, target p m v3 outbound = Some x /\ can p (cur p s t) x = true.
 Proof. exact accepted_allowed_gen. Qed.
 Print Assumptions accepted_allowed.
@@ -97,8 +100,8 @@ Theorem paths_refuted :
               terminal ic_proto (cur ic_proto (final ic_proto s0 (firstn 4 ops)) 1) = true /\
               cur ic_proto (final ic_proto s0 ops) 1 <> cur ic_proto (final ic_proto s0 (firstn 4 ops)) 1.
 Proof.
-  exists [Msg false 2 false false 1 []; Msg false 2 false false 1 []; Continue 0 4 [];
-          Msg false 4 false false 1 []; Continue 1 4 []].
+  exists [Msg false 2 false false 1 nofault []; Msg false 2 false false 1 nofault []; Continue 0 4 nofault [];
+          Msg false 4 false false 1 nofault []; Continue 1 4 nofault []].
   vm_compute. repeat split; discriminate.
 Qed.
 Print Assumptions paths_refuted.
@@ -108,8 +111,8 @@ Print Assumptions paths_refuted.
 Theorem paths_refuted_presentproof :
   exists ops, all_steps_ok pp_proto s0 ops = false /\ disciplined pp_proto s0 ops = false.
 Proof.
-  exists [Msg false 1 false true 1 []; Continue 0 3 []; Msg false 4 false false 1 [];
-          Msg false 3 false false 1 []; Continue 1 0 []].
+  exists [Msg false 1 false true 1 nofault []; Continue 0 3 nofault []; Msg false 4 false false 1 nofault [];
+          Msg false 3 false false 1 nofault []; Continue 1 0 nofault []].
   vm_compute. split; reflexivity.
 Qed.
 Print Assumptions paths_refuted_presentproof.
@@ -133,22 +136,46 @@ Proof.
 Qed.
 Print Assumptions terminal_stable_partial.
 
-(* the instances: the three services whose loop the machine models, with the tables of the current /repo *)
+(* the instances: the five services whose loops the machine models, with the tables of the current /repo *)
 Theorem paths_partial_instances :
   (forall ops, disciplined ic_proto s0 ops = true -> all_steps_ok ic_proto s0 ops = true) /\
   (forall ops, disciplined pp_proto s0 ops = true -> all_steps_ok pp_proto s0 ops = true) /\
-  (forall ops, disciplined intro_proto s0 ops = true -> all_steps_ok intro_proto s0 ops = true).
+  (forall ops, disciplined intro_proto s0 ops = true -> all_steps_ok intro_proto s0 ops = true) /\
+  (forall ops, disciplined didex_proto s0 ops = true -> all_steps_ok didex_proto s0 ops = true) /\
+  (forall ops, disciplined legacy_proto s0 ops = true -> all_steps_ok legacy_proto s0 ops = true).
 Proof. repeat split; apply paths_partial; vm_compute; reflexivity. Qed.
 Print Assumptions paths_partial_instances.
+
+
+(* a late or duplicated API decision (AcceptInvitation / AcceptExchangeRequest) is refused without any change unless
+   the thread is still in the state the action event was raised in (DID Exchange, legacy Connection) *)
+Theorem late_accept_refused : forall p s i tape v,
+  nth_error (pending s) i = Some v -> cur p s (e_t v) <> e_src v -> step p s (Accept i tape) = (s, (RReject, [])).
+Proof. exact accept_guard_gen. Qed.
+Print Assumptions late_accept_refused.
+
+(* FAULTS.  The full statement is also refuted by a failing network action AFTER a chain that ends in `done`:
+   issue-credential (holder) persists done, then sends the ack; when the send fails the listener abandons:
+   credential-received, done, abandoning, done are announced (confirmed on the real service; present-proof runs
+   each action before it executes the follow-up and is not affected by send failures) *)
+Theorem paths_refuted_send_failure :
+  exists ops, all_steps_ok ic_proto s0 ops = false /\ disciplined ic_proto s0 ops = false /\
+              step_fat ic_proto (final ic_proto s0 (firstn 2 ops)) (nth 2 ops (Accept 0 [])) = true.
+Proof.
+  exists [Msg true 2 false false 1 nofault []; Msg false 3 false false 1 nofault [];
+          Continue 0 0 {| f_get := false; f_tp := false; f_put := None; f_act := Some 1%nat |} []].
+  vm_compute. repeat split.
+Qed.
+Print Assumptions paths_refuted_send_failure.
 
 (* ---------- non-vacuity ---------- *)
 
 (* a disciplined issuer history with a negotiation loop, a failing Continue (abandoning -> done), a second thread,
    a rejected duplicate and a message after done *)
 Example paths_nonvacuous :
-  let ops := [Msg false 0 false false 1 []; Continue 0 2 []; Msg false 0 false false 1 []; Continue 1 2 [];
-              Msg false 2 false false 1 []; Msg false 2 false false 2 []; Continue 2 4 []; Continue 3 0 [];
-              Msg false 4 false false 1 []; Msg false 2 false false 1 []; Msg false 4 false false 1 []] in
+  let ops := [Msg false 0 false false 1 nofault []; Continue 0 2 nofault []; Msg false 0 false false 1 nofault []; Continue 1 2 nofault [];
+              Msg false 2 false false 1 nofault []; Msg false 2 false false 2 nofault []; Continue 2 4 nofault []; Continue 3 0 nofault [];
+              Msg false 4 false false 1 nofault []; Msg false 2 false false 1 nofault []; Msg false 4 false false 1 nofault []] in
   disciplined ic_proto s0 ops = true /\ all_steps_ok ic_proto s0 ops = true /\
   cur ic_proto (final ic_proto s0 ops) 1 = 3 /\ cur ic_proto (final ic_proto s0 ops) 2 = 3 /\
   map fst (snd (run ic_proto s0 ops)) =
@@ -156,7 +183,23 @@ Example paths_nonvacuous :
 Proof. vm_compute. repeat split. Qed.
 
 Example terminal_stable_nonvacuous :
-  let ops1 := [Msg true 1 false true 1 []; Msg false 2 false false 1 []; Continue 0 0 []] in
+  let ops1 := [Msg true 1 false true 1 nofault []; Msg false 2 false false 1 nofault []; Continue 0 0 nofault []] in
   terminal pp_proto (cur pp_proto (final pp_proto s0 ops1) 1) = true /\
-  disciplined pp_proto s0 (ops1 ++ [Msg false 4 false false 1 []; Msg true 1 false false 1 []]) = true.
+  disciplined pp_proto s0 (ops1 ++ [Msg false 4 false false 1 nofault []; Msg true 1 false false 1 nofault []]) = true.
 Proof. vm_compute. split; reflexivity. Qed.
+
+(* guarded histories WITH faults: present-proof prover whose presentation fails to send (abandoned, done never
+   announced); a failing state write; DID Exchange inviter: request, API accept, ack, late second accept refused *)
+Example faults_nonvacuous :
+  let sendfail := {| f_get := false; f_tp := false; f_put := None; f_act := Some 1%nat |} in
+  let putfail := {| f_get := false; f_tp := false; f_put := Some 0%nat; f_act := None |} in
+  let ops := [Msg false 1 false false 1 nofault []; Continue 0 3 sendfail [];
+              Msg false 1 false false 2 nofault []; Continue 1 3 putfail []] in
+  disciplined pp_proto s0 ops = true /\ all_steps_ok pp_proto s0 ops = true /\
+  map snd (snd (run pp_proto s0 ops)) = [[]; [7; 8; 2]; []; [7; 2]] /\
+  let dx := [Msg false 2 false false 1 nofault [Some 4]; Accept 0 [Some 0]; Msg false 4 false false 1 nofault [];
+             Accept 0 [Some 0]] in
+  disciplined didex_proto s0 dx = true /\ all_steps_ok didex_proto s0 dx = true /\
+  map fst (snd (run didex_proto s0 dx)) = [RAction; ROk; ROk; RReject] /\
+  cur didex_proto (final didex_proto s0 dx) 1 = 5.
+Proof. vm_compute. repeat split. Qed.
